@@ -50,7 +50,9 @@ def showTrx (t : Trx) : String :=
   let fh := match t.fh with
     | none => "N"
     | some h => s!"{h.hsn}/{h.maio}/{h.ma.length}"
-  let q := if t.txQueue.isEmpty then "-" else "/".intercalate (t.txQueue.map fun m => showOptInt m.fn)
+  -- sorted multiset of the queued frame numbers: the order of arrival between different frames is internal
+  let fns := (t.txQueue.map fun m => m.fn).mergeSort (fun a b => decide (a.getD (-1) ≤ b.getD (-1)))
+  let q := if t.txQueue.isEmpty then "-" else "/".intercalate (fns.map showOptInt)
   " ".intercalate [
     s!"R{if t.running then 1 else 0}", showOptInt t.rxFreq, showOptInt t.txFreq, fh,
     s!"v{t.hdrVer}", s!"m{if t.rfMuted then 1 else 0}", s!"ta{t.ta}",
